@@ -4,5 +4,5 @@ CONSTANTS
   Blocks = {1, 2}
   LawShapes <- QLaw
 SPECIFICATION Spec
-INVARIANTS Laws Emit
+INVARIANTS Laws ChunkLaws Emit
 CHECK_DEADLOCK FALSE
